@@ -199,16 +199,11 @@ func scenario(arg string) *vx.Scenario {
 							}
 						}
 					case 'o', 'O':
-						// open a further tube from this side (and close it again if that worked)
-						var nt tubes.Tube
-						var err error
+						// open a further tube from this side and keep it open (only a muxer Stop ends it)
 						if o == 'o' {
-							nt, err = mux.CreateReliableTube(9)
+							mux.CreateReliableTube(9)
 						} else {
-							nt, err = mux.CreateUnreliableTube(9)
-						}
-						if err == nil && nt != nil {
-							nt.Close()
+							mux.CreateUnreliableTube(9)
 						}
 					case 's':
 						noteClose(side)
@@ -302,7 +297,7 @@ func programs(thorough bool) (all []program, core []program) {
 		core = append(core,
 			program{Client: "c", Server: "c", Loss: l}, program{Client: "c", Server: "s", Loss: l}, program{Client: "s", Server: "s", Loss: l},
 			program{Client: "Wc", Client2: "s", Server: "r", Loss: l}, program{Client: "cx", Server: "cx", Loss: l}, program{Client: "c", Client2: "c", Server: "c", Loss: l},
-			program{Client: "wcx", Server: "rcx", Loss: l}, program{Client: "c", Server: "rcx", Loss: l}, program{Client: "s", Server: "x", Server2: "o", Loss: l})
+			program{Client: "wcx", Server: "rcx", Loss: l}, program{Client: "c", Server: "rcx", Loss: l}, program{Client: "s", Server: "x", Server2: "o", Loss: l}, program{Client: "s", Server: "x", Server2: "O", Loss: l})
 	}
 	for _, l := range []string{"none", "after", "dead"} {
 		for _, b := range [][2]string{{"c", "c"}, {"wc", "rc"}, {"cx", "s"}, {"s", "c"}, {"c", "x"}} {
@@ -397,7 +392,7 @@ func main() {
 	} else {
 		phases = []phase{{"all programs, one deviation (any kind)", all, vx.Bounds{1, 1, 1, 1, 0}, 1, 0}, {"core programs, two deviations (any kinds) among the first 600 choice points", core, vx.Bounds{2, 2, 2, 1, 0}, 2, 600}}
 	}
-	r.SetRule("two real tube muxers (rewritten at check time for the deterministic scheduler + virtual clock) over an in-memory link; one tube opened by the client; per side a main thread with a sequence of <=3 operations from {Write 1 byte, Write 40000 bytes, Read, Close, WaitForClose, Stop, open+close a further tube} and an optional second thread issuing a concurrent Close or Stop; loss patterns {none, first FIN lost, reply to the first FIN lost, everything from the client lost once the server has sent its FIN (lost last ACK), everything lost after 400 ms, dead network from the start}; the environment stops both muxers once all program threads returned, at the latest at virtual time 140 s. Every program is executed under every schedule within the phase's deviation bounds (iterative bounding; executions run to completion). Oracles: no deadlock, no panic in any thread (e.g. send on closed channel), every Close returns, Stop returns within 10 virtual seconds; WaitForClose returns within 120 virtual seconds of closure having become inevitable (both ends asked for it on a link that recovers, or the local muxer was told to stop), no thread alive 20 virtual seconds after both muxers stopped, after local close Write fails and Read ends with end-of-stream. states = distinct schedules; transitions = choice points met.")
+	r.SetRule("two real tube muxers (rewritten at check time for the deterministic scheduler + virtual clock) over an in-memory link; one tube opened by the client; per side a main thread with a sequence of <=3 operations from {Write 1 byte, Write 40000 bytes, Read, Close, WaitForClose, Stop, open a further reliable / unreliable tube} and an optional second thread issuing a concurrent Close or Stop; loss patterns {none, first FIN lost, reply to the first FIN lost, everything from the client lost once the server has sent its FIN (lost last ACK), everything lost after 400 ms, dead network from the start}; the environment stops both muxers once all program threads returned, at the latest at virtual time 140 s. Every program is executed under every schedule within the phase's deviation bounds (iterative bounding; executions run to completion). Oracles: no deadlock, no panic in any thread (e.g. send on closed channel), every Close returns, Stop returns within 10 virtual seconds; WaitForClose returns within 120 virtual seconds of closure having become inevitable (both ends asked for it on a link that recovers, or the local muxer was told to stop), no thread alive 20 virtual seconds after both muxers stopped, after local close Write fails and Read ends with end-of-stream. states = distinct schedules; transitions = choice points met.")
 	var execs, points int64
 	traces := 0
 	for _, ph := range phases {
